@@ -22,3 +22,20 @@ if ! go build -tags verif -o "$BIN" . 2>/verif/.build/build.$$.log; then
 fi
 rm -f /verif/.build/build.$$.log
 "$BIN" run -prop "$ID" -tier "$TIER" -seed "${VERIF_SEED:-1}" -out /verif
+rc=$?
+if [ "$ID" = "C20" ] && [ "$TIER" = "thorough" ]; then
+  # same engine under the Go race detector: 16 replicas, one app instance each, run concurrently
+  RBIN="/verif/.build/chainmon.race.$$"; RLOG="/verif/.build/race.$$"
+  if go build -race -tags verif -o "$RBIN" . 2>/dev/null; then
+    cp /verif/evidence/C20.json "/verif/.build/C20.ev.$$"
+    GORACE="halt_on_error=0 log_path=$RLOG" "$RBIN" run -prop C20 -tier quick -seed "${VERIF_SEED:-1}" -out /verif/.build/raceout.$$ >/dev/null 2>&1
+    rrc=$?
+    cp "/verif/.build/C20.ev.$$" /verif/evidence/C20.json
+    "$BIN" racereport -logs "$RLOG" -evidence /verif/evidence/C20.json -run-exit $rrc || rc=1
+    mkdir -p /verif/replays; for f in "$RLOG"*; do [ -f "$f" ] && mv "$f" /verif/replays/ ; done
+    rm -rf "$RBIN" /verif/.build/raceout.$$ "/verif/.build/C20.ev.$$"
+  else
+    echo "INCONCLUSIVE property=C20 the -race build failed"; [ $rc = 0 ] && rc=3
+  fi
+fi
+exit $rc
